@@ -50,9 +50,9 @@ var fallibleSetters = []string{"(*Point).SetBytes", "(*Point).SetExtendedCoordin
 
 // expected accept/reject structure of the decoders (G-ACCEPT), from the property statements
 var acceptSpec = map[string][]string{
-	"(*Point).SetBytes":               {"LEN[len(x) != 32]", "PRED[field.(*Element).SqrtRatio#1 == 0]"},
+	"(*Point).SetBytes":               {"LEN[len(x) != 32]", "VALID"},
 	"(*Point).SetExtendedCoordinates": {"VALID"},
-	"(*Scalar).SetCanonicalBytes":     {"LEN[len(x) != 32]", "PRED[isReduced#0 == false]"},
+	"(*Scalar).SetCanonicalBytes":     {"LEN[len(x) != 32]", "VALID"},
 	"(*Scalar).SetUniformBytes":       {"LEN[len(x) != 64]"},
 	// the forwarded class is vacuous (the forwarded buffer is always 64 bytes): optional
 	"(*Scalar).SetBytesWithClamping": {"LEN[len(x) != 32]", "?via (*Scalar).SetUniformBytes: LEN[len(x) != 64]"},
